@@ -265,7 +265,10 @@ impl Language for Swift {
     }
 
     fn write_const(&mut self, _w: &mut dyn Write, _c: &RustConst) -> std::io::Result<()> {
-        todo!()
+        Err(std::io::Error::new(
+            std::io::ErrorKind::Unsupported,
+            "constants are not supported when generating Swift",
+        ))
     }
 
     fn write_struct(&mut self, w: &mut dyn Write, rs: &RustStruct) -> io::Result<()> {
